@@ -176,6 +176,7 @@ package api
 //@   ensures err == nil ==> sdSync(self)
 //@   ensures err == nil ==> int(self.scanned) + self.scanp > old(int(self.scanned) + self.scanp)
 //@   ensures err != nil ==> self.err != nil
+//@   ensures[C06,C17] (err == nil && old(aliases(self.s)) == 0) ==> aliases(self.s) == 0
 //@   loop 0: invariant sdOK(self) && self.r != nil && minLeftBufferShift == 1 && $rpos >= 0 && $rpos <= 4611686018427387904
 //@   loop 0: invariant sdSync(self)
 //@   loop 0: invariant self.err == nil && old(self.err) == nil && 0 <= s && s < len(self.buf) && int(self.scanned) + s >= old(int(self.scanned) + self.scanp)
